@@ -84,7 +84,7 @@ class Path:
         s.set("timeout", self.engine.feas_timeout_ms)
         s.set("rlimit", RLIMIT_PER_MS * (self.engine.feas_timeout_ms))
         from . import specfun
-        terms, axioms = specfun.defuel(list(self.pc) + [c], 1)
+        terms, axioms = specfun.defuel(list(self.pc) + [c], 2, feasibility=True)
         s.add(*terms)
         s.add(*axioms)
         t0 = time.time()
@@ -184,6 +184,23 @@ class Engine:
         return done
 
 
+def _split_candidates(terms):
+    out, seen, visited, stack = [], set(), set(), list(terms)
+    while stack:
+        t = stack.pop()
+        if t.get_id() in visited or not z3.is_app(t):
+            continue
+        visited.add(t.get_id())
+        if (t.decl().kind() == z3.Z3_OP_SEQ_NTH or t.decl().name().startswith("seq.nth")) and z3.is_app(t.arg(0)) \
+                and t.arg(0).decl().kind() == z3.Z3_OP_SEQ_CONCAT:
+            c = z3.simplify(t.arg(1) < z3.Length(t.arg(0).arg(0)))
+            if c.get_id() not in seen and not z3.is_true(c) and not z3.is_false(c):
+                seen.add(c.get_id())
+                out.append(c)
+        stack.extend(t.children())
+    return out
+
+
 def _conjuncts(g):
     if z3.is_and(g):
         out = []
@@ -222,22 +239,42 @@ def _discharge1(ob, timeout_ms=10000):
     r = z3.unknown
     # z3's sequence solver is unstable on identical input: an `unknown` is retried with other random seeds
     from . import specfun
-    if specfun._DEFS:
+    if set(specfun._DEFS) - specfun._FEAS_ONLY:
         # spec functions by bounded unfolding (pyvc/specfun.py): only `unsat` is conclusive
         for fuel in (1, 2):
-            terms, axioms = specfun.defuel(list(ob.pc) + [z3.Not(ob.goal)], fuel)
+            terms, axioms = specfun.defuel(list(ob.pc) + [z3.Not(ob.goal)], fuel, feasibility=True)
             s = z3.Solver()
             s.set("timeout", max(timeout_ms // 2, 2000))
             s.set("rlimit", RLIMIT_PER_MS * (max(timeout_ms // 2, 2000)))
             s.add(*terms)
             s.add(*axioms)
-            r = s.check()
             import os as _os
+            if _os.environ.get("PYVC_DUMP_PRE"):
+                open(_os.environ["PYVC_DUMP_PRE"], "w").write(f"; {ob.name} fuel {fuel}\n" + s.to_smt2())
+            r = s.check()
             if _os.environ.get("PYVC_DUMP_OB") and r != z3.unsat:
                 _d = _os.environ["PYVC_DUMP_OB"]
                 open(_os.path.join(_d, f"ob{len(_os.listdir(_d))}_f{fuel}_{r}.smt2"), "w").write(f"; {ob.name}\n" + s.to_smt2())
             if not axioms:
                 break                    # no spec function occurs in this obligation
+            if r == z3.unknown and fuel == 2:
+                # case split on the position of an element read in a concatenation (t < len(a) for (a ++ b)[t]): z3 does
+                # not always find it; each case is a plain query and both must be unsat
+                for cand in _split_candidates(terms)[:3]:
+                    verdicts = []
+                    for case in (cand, z3.Not(cand)):
+                        s2 = z3.Solver()
+                        s2.set("timeout", timeout_ms)
+                        s2.set("rlimit", RLIMIT_PER_MS * timeout_ms)
+                        s2.add(*terms)
+                        s2.add(*axioms)
+                        s2.add(case)
+                        verdicts.append(s2.check())
+                        if verdicts[-1] != z3.unsat:
+                            break
+                    if verdicts == [z3.unsat, z3.unsat]:
+                        r = z3.unsat
+                        break
             if r == z3.unsat or fuel == 2:
                 ob.solver_s = time.time() - t0
                 ob.attempts = fuel
